@@ -31,8 +31,12 @@ def fixes():
 
 
 def seeds():
-    rows = ['| seed | breaks | what it needs to manifest | caught by (quick tier) | missed by |', '|---|---|---|---|---|']
+    rows = ['| seed | breaks | what it needs to manifest | caught by (quick tier) | missed by | note |', '|---|---|---|---|---|---|']
     n = 0
+    notes = {}
+    np_ = os.path.join(HERE, 'docs', 'seed_notes.json')
+    if os.path.exists(np_):
+        notes = json.load(open(np_))
     for d in sorted(glob.glob(os.path.join(HERE, 'seeded', '*'))):
         name = os.path.basename(d)
         try:
@@ -47,7 +51,7 @@ def seeds():
         missed = sorted(p for p, r in res.items() if r.get('exit') == 0)
         other = sorted(p for p, r in res.items() if p not in caught and p not in missed)
         needs = re.sub(r'\s+', ' ', str(meta.get('needs', '')))[:220].replace('|', '/')
-        rows.append(f"| {name} | {meta.get('property', name[:3])} | {needs} | {', '.join(caught) or '-'} | {', '.join(missed) or '-'}{(' (harness error: ' + ', '.join(other) + ')') if other else ''} |")
+        rows.append(f"| {name} | {meta.get('property', name[:3])} | {needs} | {', '.join(caught) or '-'} | {', '.join(missed) or '-'}{(' (harness error: ' + ', '.join(other) + ')') if other else ''} | {notes.get(name, '')} |")
         n += 1
     return '\n'.join(rows), n
 
